@@ -393,6 +393,15 @@ class DT:
     def timestamp(self) -> Any:
         raise sym.HarnessError("datetime model: timestamp() is not modelled")
 
+    def toordinal(self) -> Any:
+        return self.wall() // DAY + 719163  # proleptic Gregorian ordinal of the wall-clock date (1970-01-01 is 719163)
+
+    def weekday(self) -> Any:
+        return (self.wall() // DAY + 3) % 7  # 1970-01-01 was a Thursday
+
+    def isoweekday(self) -> Any:
+        return self.weekday() + 1
+
     # ---- arithmetic / comparison
     def __add__(self, o: Any) -> Any:
         if isinstance(o, TD):
